@@ -131,6 +131,9 @@ pub struct FileSpec {
     pub seed: u32,
     pub method: u8,
     pub enc: Enc,
+    /// language id stored in the hash table entry (0 = neutral); lookups are language-neutral
+    #[serde(default)]
+    pub locale: u16,
 }
 
 #[derive(Clone, Copy, Debug, PartialEq, Eq, Serialize, Deserialize)]
@@ -217,9 +220,9 @@ impl ArchiveSpec {
         for f in &self.files {
             let data = materialize(f.class, f.len.resolve(s), f.seed);
             b = match f.enc {
-                Enc::None => b.add_file_data_with_options(data, &f.name, f.method, false, 0),
-                Enc::Key => b.add_file_data_with_encryption(data, &f.name, f.method, false, 0),
-                Enc::FixKey => b.add_file_data_with_encryption(data, &f.name, f.method, true, 0),
+                Enc::None => b.add_file_data_with_options(data, &f.name, f.method, false, f.locale),
+                Enc::Key => b.add_file_data_with_encryption(data, &f.name, f.method, false, f.locale),
+                Enc::FixKey => b.add_file_data_with_encryption(data, &f.name, f.method, true, f.locale),
             };
         }
         b
@@ -416,14 +419,17 @@ pub fn file_strategy(
         any::<u32>(),
         (0usize..methods.len()),
         enc_strategy(),
+        // one file in three carries a language id (enUS, deDE, zhCN): a builder parameter like any other
+        prop_oneof![4 => Just(0u16), 1 => Just(0x0409u16), 1 => Just(0x0407u16), 1 => Just(0x0804u16)],
     )
-        .prop_map(move |(name, class, len, seed, mi, enc)| FileSpec {
+        .prop_map(move |(name, class, len, seed, mi, enc, locale)| FileSpec {
             name,
             class,
             len,
             seed,
             method: methods[mi],
             enc: if allow_enc { enc } else { Enc::None },
+            locale,
         })
 }
 
